@@ -137,6 +137,14 @@ def des_inputs(r, t, n):
         except M.Invalid:
             continue
         out.append(("valid", b))
+        try:
+            b2 = M.encode_other_version(r, t, v)
+            if b2 != b:
+                out.append(("other_version", b2))
+                if len(b2) > 1:
+                    out.append(("other_version_truncated", b2[:r.randrange(1, len(b2))]))
+        except M.Invalid:
+            pass
         if b:
             cuts = {0, 1, len(b) - 1, len(b) // 2, r.randint(0, len(b))} | set(range(1, min(len(b), 6)))
             for c in sorted(cuts):
